@@ -175,6 +175,14 @@ def unit():
                 bad = bad or r.memattrs.type.name != PM.MEMTYPE_NAMES[sp['mem']['type']]
                 if sp['mem']['share_known']:
                     bad = bad or bool(r.memattrs.shareable) != bool(sp['mem']['shareable'])
+                    lines.append('real shareable/outershareable %s/%s ; spec %s/%s' % (bool(r.memattrs.shareable), bool(r.memattrs.outershareable),
+                                                                                         bool(sp['mem']['shareable']), bool(sp['mem']['outershareable'])))
+                    bad = bad or bool(r.memattrs.outershareable) != bool(sp['mem']['outershareable'])
+                if sp['mem'].get('attrs_known'):
+                    got_a = tuple(getattr(r.memattrs, f_) for f_ in ('innerattrs', 'innerhints', 'outerattrs', 'outerhints'))
+                    want_a = tuple(sp['mem'][f_] for f_ in ('innerattrs', 'innerhints', 'outerattrs', 'outerhints'))
+                    lines.append('real inner/outer attrs+hints %s ; spec %s' % (got_a, want_a))
+                    bad = bad or got_a != want_a
         elif not bad:
             val, unk = VM.sd_dfsr(init['dfsr'], sp['kind'], sp['level'], sp['domain'], iswrite, init['cfg.have_lpae'])
             lines.append('real DFSR %s DFAR %s ; spec DFSR %s (unknown bits %s) DFAR %s' % (hex(final['dfsr']), hex(final['dfar']), hex(val), hex(unk), hex(sp['mva'])))
